@@ -6,6 +6,7 @@ package main
 import (
 	"fmt"
 	"go/ast"
+	"go/token"
 	"go/types"
 	"strings"
 
@@ -267,4 +268,70 @@ func checkC18(c *Check) {
 	}
 	// (6)
 	checkNoSharedState(c, "O-C18.6")
+	parserExhaustsInput(c)
+}
+
+// parserExhaustsInput: O-C18.4. The parser of the freshest-CRL extension returns
+// its list only after the whole extension was read: its outer loop is left only
+// by its own condition or by an error return - a break would silently drop the
+// locations that follow (and with them the delta CRL).
+func parserExhaustsInput(c *Check) {
+	n := 0
+	for _, fs := range c.P.productFuncs() {
+		if !strings.HasSuffix(fs.Pkg.PkgPath, "/revocation/crl") {
+			continue
+		}
+		sig := fs.Obj.Type().(*types.Signature)
+		if sig.Params().Len() != 1 || sig.Results().Len() != 2 || c.P.typeStr(sig.Params().At(0).Type()) != "[]byte" || c.P.typeStr(sig.Results().At(0).Type()) != "[]string" {
+			continue
+		}
+		n++
+		var bad []string
+		var walk func(nd ast.Node, outer ast.Stmt, inner ast.Stmt, outerLabel string)
+		walk = func(nd ast.Node, outer ast.Stmt, inner ast.Stmt, outerLabel string) {
+			ast.Inspect(nd, func(m ast.Node) bool {
+				if m == nil || m == nd {
+					return true
+				}
+				switch x := m.(type) {
+				case *ast.FuncLit:
+					return false
+				case *ast.LabeledStmt:
+					if _, isLoop := x.Stmt.(*ast.ForStmt); isLoop && outer == nil {
+						walk(x.Stmt.(*ast.ForStmt).Body, x.Stmt, x.Stmt, x.Label.Name)
+						return false
+					}
+				case *ast.ForStmt:
+					if outer == nil {
+						walk(x.Body, x, x, "")
+					} else {
+						walk(x.Body, outer, x, outerLabel)
+					}
+					return false
+				case *ast.RangeStmt:
+					if outer == nil {
+						walk(x.Body, x, x, "")
+					} else {
+						walk(x.Body, outer, x, outerLabel)
+					}
+					return false
+				case *ast.SwitchStmt, *ast.TypeSwitchStmt, *ast.SelectStmt:
+					if outer != nil {
+						walk(x, outer, x.(ast.Stmt), outerLabel)
+						return false
+					}
+				case *ast.BranchStmt:
+					if x.Tok == token.BREAK && outer != nil {
+						if (x.Label == nil && inner == outer) || (x.Label != nil && x.Label.Name == outerLabel && outerLabel != "") {
+							bad = append(bad, c.P.pos(x.Pos())+": break leaves the outer parsing loop")
+						}
+					}
+				}
+				return true
+			})
+		}
+		walk(fs.Decl.Body, nil, nil, "")
+		c.add("O-C18.4", "distribution-point parser reads the whole extension", "the outer loop of "+fs.Obj.Name()+" is left only by its own condition or by an error return (a break would drop the locations that follow)", len(bad) == 0, c.P.pos(fs.Decl.Pos()), bad...)
+	}
+	c.floor("distribution-point parsers", 1, n)
 }
